@@ -3,6 +3,8 @@
 pub mod c01_04;
 pub mod c05;
 pub mod c06;
+pub mod c10;
+pub mod c13;
 pub mod qh;
 
 use crate::runner::{Ctx, Report};
@@ -13,6 +15,8 @@ pub fn run(ctx: &Ctx) -> Option<Report> {
         "C01" | "C02" | "C03" | "C04" => c01_04::run(ctx),
         "C05" => c05::run(ctx),
         "C06" => c06::run(ctx),
+        "C10" => c10::run(ctx),
+        "C13" => c13::run(ctx),
         _ => return None,
     })
 }
@@ -22,6 +26,8 @@ pub fn replay(id: &str, engine: &str, case: &Value) -> Result<(), String> {
         "C01" | "C02" | "C03" | "C04" => c01_04::replay(id, case),
         "C05" => c05::replay(engine, case),
         "C06" => c06::replay(case),
+        "C10" => c10::replay(engine, case),
+        "C13" => c13::replay(engine, case),
         _ => Err(format!("unknown property {}", id)),
     }
 }
